@@ -12,25 +12,43 @@ import base64
 import contextlib
 import io
 import os
+import re
+import signal
 import struct
+import subprocess
+import sys
 import tempfile
+import time
 import zipfile
 
 import corpus
 from run import Broken, Violation
 
-GEN = ["Exceptions", "Wrappers", "Loops"]
+_HERE = os.path.dirname(os.path.abspath(__file__))
+for _p in (os.path.join(_HERE, "..", "builders"), os.path.join(_HERE, "..", "..", "tools")):
+    if os.path.abspath(_p) not in sys.path:
+        sys.path.insert(0, os.path.abspath(_p))
+import c01_carriers as CC  # noqa: E402
+import regex_inventory as RI  # noqa: E402
+
+GEN = ["Exceptions", "Wrappers", "Loops", "Regexes"]
 RULE = ("cases = (extractor x injected exception class x call index) fault injections + (input bytes x extractor) "
         "hostile-stream runs + CLI invocations; distinct = distinct (extractor, sha1(input)/fault) pairs; "
-        "non-trivial = the extractor got past its first statement (fault index > 0 or input is a mutated real document)")
+        "non-trivial = the extractor got past its first statement (fault index > 0 or input is a mutated real document); "
+        "+ (inventoried regular expression x unbounded repeat x pump count x cut) strings at the pattern level and embedded in carrier "
+        "documents (EPUB nav/NCX/OPF/chapter, RTF, HTML, MHTML, mbox) through the extractor; + CLI runs (all output modes, in-process and "
+        "as a real subprocess) on multi-result inputs whose failure surfaces after an earlier result (damaged later archive member / folder / message)")
 ASSUMPTIONS = [
     "BaseException-only exceptions (KeyboardInterrupt, GeneratorExit, SystemExit) are out of scope",
     "the whitelist of total atoms in tools/gen/wrappers.py (names, constants, attribute reads, comparisons of those, logging calls, perf_counter, imports) does not raise",
     "termination inside third-party parsers is not proved (only sampled here under a time limit)",
+    "running time of CPython's regular-expression matcher on the inventoried patterns is not proved (star height decided in Lean; every unbounded repeat pumped 20..60 times under a time limit on every run)",
     "read_file: the file exists and is readable (os:* atoms total)",
 ]
 TRUSTED = ["tools/gen/wrappers.py (Python AST -> Stmt skeleton)", "big-step semantics of try/except/finally/raise in S2T/Model/Wrapper.lean"]
 LIMIT_S = 40
+PUMP_LIMIT_S = 4        # one matching operation of one pattern on one pumped string (<= 60 repeats)
+CARRIER_LIMIT_S = 10    # one extractor run on a carrier document with a pumped string
 
 
 class FaultIO(io.BytesIO):
@@ -404,6 +422,200 @@ def _attachments(ctx, fx):
     return broken[:5]
 
 
+# ----------------------------------------------------------------------------- the library's own regular expressions
+def _timed(fn, limit_s):
+    """seconds fn() took, or None when it had to be interrupted after limit_s (CPython's matcher polls signals)"""
+    old = signal.signal(signal.SIGALRM, corpus._alarm)
+    t0 = time.perf_counter()
+    signal.alarm(limit_s)
+    try:
+        try:
+            fn()
+            return time.perf_counter() - t0
+        except corpus.Timeout:
+            return None
+    finally:
+        signal.alarm(0)
+        signal.signal(signal.SIGALRM, old)
+
+
+def _regex_entries():
+    ents, _dyn = RI.inventory(corpus.REPO)
+    return ents
+
+
+def _ent_case(ent, label, n, attack):
+    raw = attack if isinstance(attack, (bytes, bytearray)) else attack.encode("utf-8", "surrogatepass")
+    return {"kind": "regex", "file": ent["file"], "pat": ent["pat"], "flags": ent["flags"], "label": label, "n": n,
+            "attack_b64": base64.b64encode(raw).decode(), "attack_is_bytes": isinstance(attack, (bytes, bytearray))}
+
+
+def _pattern_attack(ent, ns):
+    """pattern level: -> None | (label, n, attack) — the first pumped string on which scanning needs more than PUMP_LIMIT_S"""
+    pat = RI.text_pat(ent["pat"])
+    rx = re.compile(pat, ent["flags"])
+    n_ops = 0
+    for label, n, s in sorted(RI.attacks(pat, ent["flags"], ns), key=lambda a: a[1]):
+        n_ops += 1
+        if _timed(lambda: sum(1 for _ in rx.finditer(s)), PUMP_LIMIT_S) is None:
+            return (label, n, s), n_ops
+    return None, n_ops
+
+
+def _extractor_of_ft(ft):
+    from sharepoint2text.parsing import router
+    return router._EXTRACTOR_REGISTRY[ft]
+
+
+def _carrier_docs(ent, ns, labels=None):
+    """[(carrier label, (module, fn), document bytes, attack label, n)] for one inventoried pattern"""
+    car = CC.carriers().get(ent["file"], [])
+    if not car:
+        return
+    pat = RI.text_pat(ent["pat"])
+    for label, n, s in sorted(RI.attacks(pat, ent["flags"], ns), key=lambda a: a[1]):
+        if labels and label.split(":", 1)[1] not in labels:
+            continue
+        for clabel, ft, build in car:
+            try:
+                mf = _extractor_of_ft(ft)
+            except KeyError:
+                continue
+            yield clabel, tuple(mf), build(s), label, n
+
+
+def _regex_pumping(ctx, heavy=False, only=None):
+    """every inventoried pattern x every unbounded repeat: body repeated n times, continuation cut / spoiled;
+    (1) the pattern alone, (2) embedded in every carrier document of the pattern's file, through the extractor"""
+    import hashlib
+    broken = []
+    ents = [e for e in _regex_entries() if only is None or (e["file"], e["pat"]) in only]
+    ns_pat = tuple(range(20, 61, 2)) if heavy else (20, 24, 28, 40, 60)
+    ns_car = (20, 24, 28, 32, 40, 60) if heavy else ((24, 40, 60) if ctx.thorough else (32,))
+    labels = None if (heavy or ctx.thorough) else ("cut", "cut+nul", "drop-last")
+    slow_pat = []
+    for e in ents:
+        hit, n_ops = _pattern_attack(e, ns_pat)
+        ctx.case(("regex", e["file"], e["pat"], e["flags"]), nontrivial=n_ops > 0)
+        ctx.count(f"regex/pattern/{'hang' if hit else ('pumped' if n_ops else 'no-unbounded-repeat')}")
+        ctx.count("regex/pattern-ops", n_ops)
+        if hit:
+            slow_pat.append(e)
+            label, n, s = hit
+            broken.append(Broken("correspondence", "c01.regex",
+                                 f"{e['file']}: pattern {e['pat']!r} (flags {e['flags']}) needs more than {PUMP_LIMIT_S}s on a {len(s)}-character string "
+                                 f"({label}, {n} repeats) (model: star height reviewed, no blow-up)", case=_ent_case(e, label, n, s)))
+    # carriers: the slow patterns first, so that a hang is met within the first documents
+    seen = set()
+    hangs = 0
+    order = slow_pat + [e for e in ents if e not in slow_pat]
+    for e in order:
+        if hangs >= 2:
+            break
+        for clabel, (m, f), doc, label, n in _carrier_docs(e, ns_car, labels):
+            h = hashlib.sha1(doc).hexdigest()
+            if (f, h) in seen:
+                continue
+            seen.add((f, h))
+            why = _check_bytes(m, f, doc, CARRIER_LIMIT_S)
+            ctx.case(("regex-carrier", f, h))
+            ctx.count(f"regex/carrier/{clabel}/{'bad' if why else 'ok-or-family'}")
+            if why:
+                hangs += 1
+                broken.append(Broken("correspondence", "c01.surface", f"regex-carrier:{clabel} [{e['pat']!r} {label} n={n}]: {why} (model: impossible)",
+                                     case={"kind": "bytes", "extractor": [m, f], "label": f"regex-carrier:{clabel}:{label}:n={n}", "limit_s": CARRIER_LIMIT_S,
+                                           "data_b64": base64.b64encode(doc).decode()}))
+                break
+    ctx.sample({"regex_inventory": len(ents), "carrier_documents": len(seen), "files_with_carriers": sorted(CC.carriers())})
+    return broken
+
+
+def _regex_case_violations(c):
+    """search/replay for a recorded pattern-level blow-up: first try to reach it through an extractor (carrier document);
+    only if no carrier reaches it report the pattern itself"""
+    attack = base64.b64decode(c["attack_b64"])
+    if not c.get("attack_is_bytes"):
+        attack = attack.decode("utf-8", "surrogatepass")
+    cur = [e for e in _regex_entries() if e["file"] == c["file"]]
+    ent = next((e for e in cur if e["pat"] == c["pat"] and e["flags"] == c["flags"]), None)
+    if ent is not None:
+        for clabel, (m, f), doc, label, n in _carrier_docs(ent, tuple(range(20, 61, 4))):
+            if label.split(":")[0] != c["label"].split(":")[0]:
+                continue
+            why = _check_bytes(m, f, doc, CARRIER_LIMIT_S)
+            if why:
+                return [Violation(f"surface:{f}", f"{why} [{clabel}: pattern {ent['pat']!r} of {ent['file']}, {label}, {n} repeats]",
+                                  {"kind": "bytes", "extractor": [m, f], "label": f"regex-carrier:{clabel}:{label}:n={n}", "limit_s": CARRIER_LIMIT_S,
+                                   "data_b64": base64.b64encode(doc).decode()})]
+    # pattern level: any pattern the file compiles NOW that cannot get through the recorded string
+    for e in cur:
+        pat = RI.text_pat(e["pat"])
+        if isinstance(pat, bytes) != isinstance(attack, bytes):
+            continue
+        rx = re.compile(pat, e["flags"])
+        if _timed(lambda: sum(1 for _ in rx.finditer(attack)), PUMP_LIMIT_S) is None:
+            return [Violation(f"regex:{e['file']}", f"{e['file']}: pattern {e['pat']!r} (flags {e['flags']}) does not get through a {len(attack)}-character string within "
+                              f"{PUMP_LIMIT_S}s ({c['label']}, {c['n']} repeats); no carrier document of the harness reaches it", c)]
+    return []
+
+
+# ----------------------------------------------------------------------------- CLI on inputs that fail after the first result
+def _cli_subprocess(argv):
+    env = dict(os.environ)
+    env["PYTHONPATH"] = corpus.REPO + os.pathsep + env.get("PYTHONPATH", "")
+    try:
+        p = subprocess.run([sys.executable, "-m", "sharepoint2text.cli", *argv], capture_output=True, text=True, timeout=120, env=env, cwd=corpus.REPO)
+    except subprocess.TimeoutExpired:
+        return "TIMEOUT", "", ""
+    return p.returncode, p.stdout, p.stderr
+
+
+def _yields_before_failure(path):
+    """library-level classification of an input: ('ok', n) | ('family', n) | ('other', n) with n = results produced before the end"""
+    import sharepoint2text
+    n = 0
+    try:
+        for _ in sharepoint2text.read_file(path):
+            n += 1
+        return "ok", n
+    except corpus.family():
+        return "family", n
+    except Exception:  # noqa
+        return "other", n
+
+
+def _cli_late_failures(ctx):
+    broken = []
+    inputs = CC.late_failure_inputs(ctx.rng)
+    late = 0
+    with tempfile.TemporaryDirectory(prefix="s2t_c01late_") as td:
+        for i, (name, data, what) in enumerate(inputs):
+            p = os.path.join(td, name)
+            with open(p, "wb") as fh:
+                fh.write(data)
+            kind, n = _yields_before_failure(p)
+            is_late = kind != "ok" and n >= 1
+            late += is_late
+            ctx.count(f"cli/late-input/{kind}-after-{min(n, 3)}")
+            runs = [(fl, False) for fl in ([], ["--json"], ["--json-unit"], ["--json", "--binary"])]
+            if is_late and (ctx.thorough or late <= 2):
+                runs += [([], True), (["--json"], True)]
+            for flags, sub in runs:
+                rc, out, err = _cli_subprocess([p, *flags]) if sub else _cli_once([p, *flags])
+                ok, why = _cli_ok(rc, out, err)
+                ctx.case(("cli-late", name, tuple(flags), sub, len(data)), nontrivial=is_late)
+                ctx.count(f"cli/{'late' if is_late else 'multi'}{'-subprocess' if sub else ''}/rc={rc}")
+                if not ok:
+                    broken.append(Broken("correspondence", "c01.cli", f"{name} ({what}; library: {kind} after {n} result(s)) {flags}{' [subprocess]' if sub else ''}: {why}",
+                                         case={"kind": "cli", "name": name, "flags": flags, "subprocess": sub, "data_b64": base64.b64encode(data).decode()}))
+            os.unlink(p)
+    ctx.sample({"late_failure_inputs": len(inputs), "fail_after_first_result": late})
+    if late == 0:
+        ctx.notes.append("no generated multi-result input failed after its first result (the library no longer produces results lazily?)")
+    return broken[:6]
+
+
+
 def correspondence(ctx):
     fx = corpus.fixtures()
     broken = []
@@ -412,17 +624,19 @@ def correspondence(ctx):
     broken += _hostile_stream(ctx, fx)
     broken += _read_file_stream(ctx, fx)
     broken += _cli_discipline(ctx, fx)
+    broken += _cli_late_failures(ctx)
+    broken += _regex_pumping(ctx)
     return {"broken": broken, "violations": []}
 
 
 # ----------------------------------------------------------------------------- oracle on the real code
-def _check_bytes(m, f, data):
+def _check_bytes(m, f, data, limit_s=LIMIT_S):
     fn = corpus.extractor(m, f)
-    r = corpus.run_extractor(fn, data, path=None, limit_s=LIMIT_S)
+    r = corpus.run_extractor(fn, data, path=None, limit_s=limit_s)
     if r[0] == "other":
         return f"{f} let {r[1]} escape ({r[2]}) — not an ExtractionError subclass"
     if r[0] == "hang":
-        return f"{f} did not terminate within {LIMIT_S}s"
+        return f"{f} did not terminate within {limit_s}s on {len(data)} bytes"
     return None
 
 
@@ -434,9 +648,12 @@ def search(ctx, broken):
         c = b.case or {}
         if c.get("kind") == "bytes":
             data = base64.b64decode(c["data_b64"])
-            why = _check_bytes(*c["extractor"], data)
+            why = _check_bytes(*c["extractor"], data, c.get("limit_s", LIMIT_S))
             if why:
-                out.append(Violation(f"surface:{c['extractor'][1]}", why, {"kind": "bytes", "extractor": c["extractor"], "label": c["label"], "data_b64": c["data_b64"]}))
+                out.append(Violation(f"surface:{c['extractor'][1]}", why, {"kind": "bytes", "extractor": c["extractor"], "label": c["label"], "data_b64": c["data_b64"],
+                                                                           **({"limit_s": c["limit_s"]} if "limit_s" in c else {})}))
+        elif c.get("kind") == "regex":
+            out += _regex_case_violations(c)
         elif c.get("kind") == "read_file":
             why = _read_file_once(c["ext"], base64.b64decode(c["data_b64"]))
             if why:
@@ -456,12 +673,35 @@ def search(ctx, broken):
                 p = os.path.join(td, c["name"])
                 with open(p, "wb") as fh:
                     fh.write(base64.b64decode(c["data_b64"]))
-                rc, o, e = _cli_once([p, *c["flags"]])
+                rc, o, e = _cli_subprocess([p, *c["flags"]]) if c.get("subprocess") else _cli_once([p, *c["flags"]])
                 ok, why = _cli_ok(rc, o, e)
                 if not ok:
                     out.append(Violation("cli:discipline", f"CLI {c['flags']} on {c['name']}: {why}", c))
     if out:
-        return out
+        # one violation per mechanism is enough
+        seen_keys, uniq = set(), []
+        for v in out:
+            if v.key not in seen_keys:
+                seen_keys.add(v.key)
+                uniq.append(v)
+        return uniq
+    # 2a. the library's regular expressions: heavier pumping (every even repeat count 20..60, every cut) of every inventoried
+    #     pattern — a new or changed pattern is in the inventory of the CURRENT source
+    for b in _regex_pumping(ctx, heavy=True):
+        c = b.case or {}
+        if c.get("kind") == "regex":
+            out += _regex_case_violations(c)
+        elif c.get("kind") == "bytes":
+            why = _check_bytes(*c["extractor"], base64.b64decode(c["data_b64"]), c.get("limit_s", LIMIT_S))
+            if why:
+                out.append(Violation(f"surface:{c['extractor'][1]}", why, c))
+        if out:
+            return out[:1]
+    # 2b. CLI on inputs that fail after the first result
+    for b in _cli_late_failures(ctx):
+        out.append(Violation("cli:discipline", b.detail, b.case))
+    if out:
+        return out[:1]
     # 2. a theorem / skeleton obligation broke: hunt with fault injection (cheap, targeted at wrappers) and the hostile stream
     fam_excs, other_excs = _exc_instances()
     for ft, m, f in corpus.registry():
@@ -501,8 +741,11 @@ def search(ctx, broken):
 def replay(ctx, payload):
     c = payload.get("replay", {})
     if c.get("kind") == "bytes":
-        why = _check_bytes(*c["extractor"], base64.b64decode(c["data_b64"]))
+        why = _check_bytes(*c["extractor"], base64.b64decode(c["data_b64"]), c.get("limit_s", LIMIT_S))
         return (why is None), why or "only family exceptions / results"
+    if c.get("kind") == "regex":
+        vs = _regex_case_violations(c)
+        return (not vs), "; ".join(v.what for v in vs) or "every pattern of the file gets through the recorded string"
     if c.get("kind") == "read_file":
         why = _read_file_once(c["ext"], base64.b64decode(c["data_b64"]))
         return (why is None), why or "only family exceptions / results"
